@@ -198,6 +198,93 @@ def negative_universe_failures(deck, options):
     return failures
 
 
+# lines of the anchored functions that no tied call can reach (by source text)
+TIE_UNREACHABLE = [
+    # pot_transform: surfaces that convert to several T4 surfaces (macrobodies,
+    # one-sheet cones): the tie uses planes; covered by the sweep / C03
+    "surf.idorigin = tuple(list(surf.idorigin) + ['aux surf'])",
+    # parse_fill_kw / to_fillid / parse_keywords: lattice arrays and LAT (C06),
+    # LIKE n BUT keywords (C09 / C15)
+    'str_bounds = [first_arg]', "while kw_list and ':' in kw_list[-1]:",
+    'str_bounds.append(kw_list.pop())', 'bounds = parse_ranges(str_bounds)',
+    'fillid_u, consumed = expand_data_card(list(reversed(kw_list)),',
+    'expected=bounds.size(),', "dtype='int')", 'except ValueError:',
+    "msg = (f'expected {bounds.size()} universe specifications '",
+    "'after FILL keyword')", 'raise ParseMCNPCellError(msg) from None',
+    'del kw_list[-consumed:]', 'fillid_bounds = bounds',
+    "keywords['lattice'] = self.parse_lat_kw(kw_list)",
+    "keywords['density'] = kw_list.pop()",
+    "keywords['material'] = kw_list.pop()",
+    'f_univs_arg = kws', 'if isinstance(f_univs_arg, int):',
+    'if lat_opt is None:', "msg = 'no --lattice option provided'",
+    'raise MissingLatticeOptError(msg) from None',
+    "kws['f_bounds'] = lat_opt",
+    "kws['f_univs'] = [f_univs_arg] * lat_opt.size()",
+    "return LatticeSpec(kws['f_bounds'], kws['f_univs'])",
+    # parse_one_cell_worker: importance cards, LIKE BUT material / density
+    "kws['importance'] = self.importances[rank]", 'except IndexError:',
+    "raise ParseMCNPCellError('Cannot find importance') from None",
+    "material_id = kws['material']",
+    "density = normalize_float(kws['density'])", 'density = None',
+    "elif 'rho' in elt:", "elif 'mat' in elt:", 'try:',
+    # CellMCNP.copy: geometries always have .copy here
+    'geom_copy = self.geometry',
+]
+
+
+def start_coverage():
+    import c02_cov
+    from t4_geom_convert.Kernel.Volume.CellConversion import CellConversion
+    from t4_geom_convert.Kernel.Volume.ByUniverse import by_universe
+    from t4_geom_convert.Kernel.Volume.CellMCNP import CellMCNP
+    from t4_geom_convert.Kernel.Volume import CellInlining as inl
+    from t4_geom_convert.Kernel.FileHandlers.Parser.ParseMCNPCell import \
+        ParseMCNPCell
+    funcs = [CellConversion.pot_fill, CellConversion.pot_transform,
+             CellConversion.cell_transform, CellConversion.apply_trcl,
+             by_universe, CellMCNP.copy, inl.find_occurrences,
+             inl.extract_subcells, inl.compute_inlining_scores,
+             inl.geometry_size, inl.inline_cells, inl.inline_cells_worker,
+             ParseMCNPCell.parse_fill_kw, ParseMCNPCell.parse_trcl_kw,
+             ParseMCNPCell.parse_keywords, ParseMCNPCell.parse_one_cell_worker,
+             ParseMCNPCell.to_fillid]
+    return c02_cov.LineCov(funcs)
+
+
+class traced:
+    '''Tracing only around the calls into the implementation.  (Python switches
+    tracing off by itself when the trace function raises, which happens when a
+    cyclic case runs into the recursion limit - hence set again every time.)'''
+
+    def __init__(self, cov):
+        self.cov = cov
+
+    def __enter__(self):
+        import sys
+        sys.settrace(self.cov._global)
+
+    def __exit__(self, *exc):
+        import sys
+        sys.settrace(None)
+        return False
+
+
+def finish_coverage(res, cov):
+    total, missing = cov.missing(TIE_UNREACHABLE)
+    res.obligation('coverage: the tied calls execute every line of the '
+                   f'anchored functions they can reach ({total} lines of '
+                   f'{len(cov.codes)} code objects)', not missing,
+                   f'never executed: {missing[:6]}')
+    res.extra['anchored_lines'] = total
+    if missing:
+        res.violation('harness-error',
+                      'the tie generators no longer reach these lines of the '
+                      f'anchored code: {missing[:8]}',
+                      {'theorem_or_correspondence': 'coverage',
+                       'input': {'lines': [list(m) for m in missing[:20]]}},
+                      found_input=False)
+
+
 def sweep(res, rng, n_decks, n_points, tag):
     '''Whole conversions vs the reference location. Returns the number of
     failing decks.'''
@@ -334,7 +421,10 @@ def run(res, tier, seed, proofs_ok):
                  'observed': [f['why'] for f in fails[:5]]},
                 found_input=True)
 
-    # 2. tie
+    # 2. tie (under a line-coverage tracer restricted to the anchored functions
+    #    that the ties call: every line of them that a tied call can reach
+    #    must be executed)
+    cov = start_coverage()
     cases, meta = [], []
     corpus = c05_tie.corpus_cases()
     for i in range(-len(corpus), n_tie):
@@ -345,7 +435,8 @@ def run(res, tier, seed, proofs_ok):
             case = c05_tie.gen_case(rng, malformed=(i % 4 == 3))
         runner = c05_tie.Runner(case)
         try:
-            outcome = runner.run()
+            with traced(cov):
+                outcome = runner.run()
         except Exception as exc:          # anything but KeyError/Recursion
             res.violation(
                 'impl-violation' if case['fault'] is None else 'correspondence',
@@ -406,7 +497,8 @@ def run(res, tier, seed, proofs_ok):
     for i in range(400 if tier == 'quick' else 4000):
         case = c05_kw.gen_case(rng)
         try:
-            outcome = c05_kw.run_impl(case)
+            with traced(cov):
+                outcome = c05_kw.run_impl(case)
         except Exception as exc:
             res.violation(
                 'impl-violation',
@@ -465,7 +557,8 @@ def run(res, tier, seed, proofs_ok):
     for i in range(300 if tier == 'quick' else 3000):
         case = c05_kw.gen_cell_case(rng)
         try:
-            outcome = c05_kw.run_cell_impl(case)
+            with traced(cov):
+                outcome = c05_kw.run_cell_impl(case)
         except Exception as exc:
             res.violation(
                 'impl-violation',
@@ -500,6 +593,8 @@ def run(res, tier, seed, proofs_ok):
                       + err[:300], {'theorem_or_correspondence': 'tie:cell_kw',
                                     'error': err}, found_input=False)
     tie_broken = tie_broken or bool(cbad or cerrs)
+
+    finish_coverage(res, cov)
 
     # 3. sweep with the independent oracle (more of it when the tie broke)
     bad_decks = sweep(res, rng, n_decks, n_points, 'sweep')
